@@ -465,8 +465,8 @@ def rule_omp_order(ctx):
             whyl = f"last = {fmt_term(last_t)[:100]}"
             # proof by normal form: a conditional that yields n exactly when i is the last chunk
             proved = False
-            if last_t[0] == 'cond' and last_t[2] == N:
-                ct = last_t[1]
+            if last_t[0] == 'cond' and (last_t[2] == N or last_t[3] == N):
+                ct = last_t[1] if last_t[2] == N else ('un', '!', last_t[1])
                 P = None
                 for s in subterms(ct):
                     if s[0] == 'local' and s[1] == 'parallelism':
